@@ -61,7 +61,7 @@ theorem tget_filter_keys (t : Table) (p : String → Bool) (h : String) :
       · subst hk; simp [List.filter, hp, tget]
       · simp [List.filter, hp, tget, hk, ih]
     · by_cases hk : k = h
-      · subst hk; simp [List.filter, hp, tget, ih]
+      · subst hk; simp [List.filter, hp, ih]
       · simp [List.filter, hp, tget, hk, ih]
 
 /-! ### `dedupe` -/
